@@ -193,7 +193,8 @@ class PhysicalityObserver:
     def __init__(self, rep, case, conf, hbar, n, simrun):
         self.rep, self.case, self.conf, self.hbar = rep, case, conf, hbar
         self.simrun = simrun
-        self.g = rg.GState(n)  # reference shadow, used only for the truncation tail of the Fock legs
+        self.lg = rg.Labelled(n)  # reference shadow (subsystem labels), used only for the truncation tail of the Fock legs
+        self.g = self.lg.g
         self.gvalid = True
         self.tau_sum = 0.0
         self.tau_star = 0.0
@@ -273,12 +274,15 @@ class PhysicalityObserver:
                   "params": rnd([x for x in ev["p"] if not isinstance(x, np.ndarray)], 8)}
         if self.gvalid:
             try:
-                self.gvalid = bool(rg.apply_op(self.g, name, ev["p"], ev["modes"], ev["dagger"], self.hbar))
+                self.gvalid = bool(self.lg.apply(name, ev["p"], ev["modes"], ev["dagger"], self.hbar))
             except Exception:
                 self.gvalid = False
         if name.startswith("Measure"):
             self.rep.monitor("physical-after-measurement")
             self.rep.seen("measurement-kinds", "%s%s@%s" % (name, ":select" if getattr(ev["op"], "select", None) is not None else "", lab))
+        if name in ("_New_modes", "_Delete"):
+            self.rep.monitor("physical-after-New/Del")
+            self.rep.observe("structural:%s@%s" % (name, lab))
         if not self.physical(after, locus, detail):
             return
         if before is None or before.n != after.n:
